@@ -5,6 +5,7 @@ import (
 	"regexp"
 	"strings"
 	"unicode"
+	"unicode/utf8"
 
 	"github.com/Vedant9500/WTF/internal/constants"
 	"github.com/Vedant9500/WTF/internal/errors"
@@ -22,13 +23,26 @@ func ValidateQuery(query string) (string, error) {
 		return "", errors.NewQueryTooLongError(len(query), constants.MaxQueryLength)
 	}
 
-	// Basic sanitization - remove control characters but keep printable chars
-	cleaned := strings.Map(func(r rune) rune {
-		if unicode.IsControl(r) && r != '\n' && r != '\t' {
-			return -1 // Remove control characters except newlines and tabs
+	// Basic sanitization - remove control characters (except newlines and tabs) but keep printable chars.
+	// A byte that is not valid UTF-8 is written as a single '?': strings.Map would turn each of them into
+	// U+FFFD (three bytes), so an accepted query could come back longer than MaxQueryLength and be rejected
+	// when validated again; keeping the raw byte instead would let the bytes around a removed control
+	// character join into a new character (e.g. "\xc2\x01\x80" -> U+0080).
+	var b strings.Builder
+	b.Grow(len(query))
+	for i := 0; i < len(query); {
+		r, size := utf8.DecodeRuneInString(query[i:])
+		switch {
+		case r == utf8.RuneError && size == 1:
+			b.WriteByte('?')
+		case unicode.IsControl(r) && r != '\n' && r != '\t':
+			// removed
+		default:
+			b.WriteString(query[i : i+size])
 		}
-		return r
-	}, query)
+		i += size
+	}
+	cleaned := b.String()
 
 	// Check for potentially dangerous characters after sanitization
 	dangerousChars := regexp.MustCompile(`[<>|&;$]`)
